@@ -354,6 +354,20 @@ func runCase(c *wk.Ctx, i int) {
 				v := model.Value(1, uint32(t), uint32(j), model.ValueSize(r, os.O.GetBlockSize(), os.O.GetWriteBuffer()))
 				if err := db.Put(k, v, nil); err != nil {
 					if withFaults {
+						// A write whose call failed may still have been applied (the buffer rotation that follows
+						// the application can fail while a background flush is in its error state). No fault is
+						// armed at this point and this is the only writer of k: reading k back settles its fate.
+						got, gerr := db.Get(k, nil)
+						switch {
+						case gerr == nil && bytes.Equal(got, v):
+							M.Put(k, v)
+							note(k, "plain put before tx%d j=%d (call failed, found applied)", t, j)
+							c.Count("failed_plain_writes_found_applied", 1)
+						case gerr == nil || gerr == leveldb.ErrNotFound:
+						default:
+							c.Count("cases_abandoned_because_a_write_fate_was_unreadable", 1)
+							return
+						}
 						continue
 					}
 					fail("unexpected-error", "Put: "+err.Error(), nil)
